@@ -17,6 +17,7 @@ package proto
 import (
 	"bytes"
 	"fmt"
+	"io"
 	"strconv"
 )
 
@@ -58,6 +59,9 @@ func newArrayWithParser(parser *Parser) (*Array, error) {
 		msg, err := parser.Next()
 		if err != nil {
 			return nil, err
+		}
+		if msg == nil {
+			return nil, io.ErrUnexpectedEOF
 		}
 		msgs[n] = msg
 	}
